@@ -331,7 +331,7 @@ def watch_option_wired(ctx):
     ok = False
     for body in (m, f.bodies[ma.name]):
         for bb, t in body.calls():
-            if t["callee"]["base"].endswith("ArgMatches::is_present") and len(t["args"]) > 1 and any(a[0] == "static" and a[1].endswith("WATCH") for a in body.prov.operand_atoms(t["args"][1])):
+            if t["callee"]["base"].endswith("ArgMatches::is_present") and len(t["args"]) > 1 and any(a[0] in ("static", "constdef") and a[1].endswith("WATCH") for a in body.prov.operand_atoms(t["args"][1])):
                 fl = body.prov.flows_forward(t["dest"]["local"])
                 if any("WatchOption" in body.locals[l]["ty"] for l in fl):
                     ok = True
